@@ -28,6 +28,21 @@ inductive PAskB where
   | stdWillWake         -- `Waker::will_wake` (standard library) between the registered waker and the one supplied
   deriving DecidableEq, Repr, Inhabited
 
+/-- What the functions of `KanalPtr` do with the pointer-sized word and the memory behind it (src/pointer.rs). -/
+inductive PtrOp where
+  | zeroed          -- `zeroed()`: a zero-sized value out of nothing
+  | readThrough     -- `ptr::read((*self.0.get()).assume_init())`: the word is an address
+  | readInline      -- `ptr::read((*self.0.get()).as_ptr() as *const T)`: the word's own bytes are the value
+  | writeThrough    -- `ptr::write((*self.0.get()).assume_init(), d)`
+  | storeInline     -- `*self.0.get() = store_as_kanal_ptr(..)`
+  | forget          -- `forget(d)`
+  | copyThrough     -- `ptr::copy_nonoverlapping(d, (*self.0.get()).assume_init(), 1)`
+  | wordAddr | wordInline | wordUninit      -- what the constructors put into the word
+  | copyBytes       -- `store_as_kanal_ptr`: copy the value's bytes into the word
+  | unreachable
+  | unknown (text : String)
+  deriving DecidableEq, Repr, Inhabited
+
 /-- Protocol trees.  The word operated on is the signal's `state` (values 0 UNLOCKED, 1 TERMINATED, 2 LOCKED,
     3 LOCKED_STARVATION) in `Signal` functions and the lock flag (0 / 1) in `RawMutexLock` functions. -/
 inductive PAct where
